@@ -205,6 +205,8 @@ pub struct Resolver<'p> {
     pub errors: Vec<RefError>,
     /// set when a lookup hit an ambiguous table entry (binding then depends on registration order)
     pub ambiguous_hit: bool,
+    /// aliases of anonymous types whose expression is being expanded (loop detection)
+    expanding: Vec<String>,
 }
 
 #[derive(Clone, Copy, PartialEq, Eq)]
@@ -221,6 +223,7 @@ impl<'p> Resolver<'p> {
             table: Table::build(program),
             errors: Vec::new(),
             ambiguous_hit: false,
+            expanding: Vec::new(),
         }
     }
 
@@ -286,6 +289,12 @@ impl<'p> Resolver<'p> {
                         _other => {
                             // primitive or anonymous type written in the alias: canonical form of that
                             // expression, resolved in the alias's own module
+                            if self.expanding.contains(&cur.scoped) {
+                                // the alias reaches itself through an anonymous type
+                                self.err("E019", at, name);
+                                return None;
+                            }
+                            self.expanding.push(cur.scoped.clone());
                             let saved = self.errors.len();
                             let inner = TypeM {
                                 attrs: vec![],
@@ -294,10 +303,15 @@ impl<'p> Resolver<'p> {
                             };
                             let at_alias = format!("{}/type", cur.path);
                             let r = self.resolve_type(&inner, &alias_scope, &at_alias);
+                            self.expanding.pop();
+                            let looped = self.errors[saved..].iter().any(|e| e.code == "E019");
                             // errors inside the alias's own expression are reported where the alias is
                             // written (they are found again when the alias definition itself is
                             // resolved); do not duplicate them for the use site
                             self.errors.truncate(saved);
+                            if looped {
+                                self.err("E019", at, name);
+                            }
                             let r = r?;
                             return match pos {
                                 Position::Type => Some((r.kind, attrs)),
